@@ -85,6 +85,11 @@ def shrink(req):
         yield from shrink_v(req)
         return
     f = _fields(req)
+    # one argument vector (the failing one survives)
+    vecs = f[3].split(";") if f[3] else []
+    if len(vecs) > 1:
+        for v in vecs:
+            yield "\t".join([f[0], f[1], f[2], v, "-", "-"])
     # whole definitions first (never the function under test)
     chunks = f[1].split("\\n\\n")
     for i in range(len(chunks)):
